@@ -295,7 +295,13 @@ DWORD WINAPI reb_server_start(void* args){
             close(childfd);
             continue;
         }
-        sscanf(buf, "%s %s %s\n", method, uri, version);
+        if (sscanf(buf, "%s %s %s\n", method, uri, version) != 3){
+            // method, uri and version still hold the previous request: do not act on it again
+            reb_server_cerror(stream, "Did not understand request line.");
+            fclose(stream);
+            close(childfd);
+            continue;
+        }
 
         /* only support the GET method */
         if (strcasecmp(method, "GET") && strcasecmp(method, "POST")) {
@@ -517,7 +523,11 @@ screenshot_finish:
         }
 
         // Get method and uri
-        sscanf(recbuf, "%s %s %s\n", method, uri, version);
+        if (sscanf(recbuf, "%s %s %s\n", method, uri, version) != 3){
+            // method, uri and version still hold the previous request: do not act on it again
+            reb_server_cerror(clientS, "Did not understand request line.");
+            continue;
+        }
         if (strcasecmp(method, "GET") && strcasecmp(method, "POST")) {
             reb_server_cerror(clientS, "Method not Implemented");
             continue;
